@@ -18,6 +18,16 @@ CHECKS = {
          "From each of the 361/841 canonical trees every op of the alphabet is applied to both real backends (root and child views). Where the stated preconditions hold (model class MUST-OK) results, returned data/listings (as sets) and the resulting trees must be equal on disk, in memory and in the model; otherwise both must fail cleanly: no panic, nothing outside the addressed paths changes, the host directory outside the root (canary file/dir) is untouched.",
          "Disk states are materialised with plain os calls; no symlinks/permissions; removal of the real root and directory-into-itself copies are excluded (unbounded on disk).",
          "DESIGN.md 3/C02"),
+ "C03": ("exploration",
+         "bounded exhaustive enumeration of path strings x 16 operations x 21 view kinds on the real code with canaries outside every view root (no sampling)",
+         "Every path string of <=3 (quick) / <=4 (thorough) segments over {name,'.','..',''} with/without leading '/' is passed to every operation (both arguments of the copies, and as Filespace() argument followed by write/list/remove) of every view kind: memory child, child-of-child, disk root/child/grandchild, encrypted over either, read-only mask and its children, sub-path helper and nesting, cache children and caches over child views (committed before the comparison). Oracle: the snapshot of everything outside the view root (store tree, host directory, cache-visible tree) is byte-identical, and no returned content/listing/stat/existence answer belongs to a node outside the root.",
+         "Segment bound as stated (the 'randomly beyond' part is not claimed); one store shape with same-named nodes inside and outside; the view's own root node counts as inside.",
+         "DESIGN.md 3/C03"),
+ "C05": ("fault_enumeration",
+         "bounded exhaustive enumeration of cipher/base/secret/salt/host-binding configurations x plaintexts x write/read paths; every truncation length and every single-byte corruption of the stored bytes; name-space lock-step with the tree model",
+         "Round trip through all write-path/read-path pairs (incl. overwrite of shorter/longer content), substring secrecy of the raw bytes, nonce freshness, rejection under every other (secret,salt) of the pool, and for the stored bytes of each plaintext EVERY truncation length 0..N-1 and EVERY single-byte corruption (all 255 values for short files) must be answered with an error - never data, never a panic - on a fresh base each time; name-space operations are compared step by step with the tree model through the encrypted filespace.",
+         "crypto/rand.Reader replaced by a deterministic non-repeating stream; cryptographic strength out of scope; long files use strided interior positions (stated in evidence).",
+         "DESIGN.md 3/C05"),
  "C08": ("model_checking",
          "stateless preemption-bounded DFS over all schedules of the real fsloop/jobsync code under a controlled scheduler (vsched), fair-yield rule, per-program bounds",
          "Every schedule (up to the stated preemption bound, 2-3 for small programs) of the real producer/consumer/completion goroutines is executed for a family of trees, filters, worker limits, channel capacities and injected failures; oracle = multiset of callback arguments, concurrency high-water mark, callbacks after Wait, error list. Found the lost-item window on the pinned tree (fixed).",
